@@ -147,6 +147,29 @@ func flatten(e ast.Expr, env map[string]constant.Value, out *[]uint64, dims *[]i
 	}
 }
 
+// maskOf recognises `(maxInt - K)` and returns K+1 (the granularity), 0 otherwise
+func maskOf(e ast.Expr, env map[string]constant.Value) uint64 {
+	if p, ok := e.(*ast.ParenExpr); ok {
+		e = p.X
+	}
+	be, ok := e.(*ast.BinaryExpr)
+	if !ok || be.Op != token.SUB {
+		return 0
+	}
+	if id, ok := be.X.(*ast.Ident); !ok || id.Name != "maxInt" {
+		return 0
+	}
+	v, ok := evalConst(be.Y, env)
+	if !ok {
+		return 0
+	}
+	k, ok := constant.Uint64Val(v)
+	if !ok {
+		return 0
+	}
+	return k + 1
+}
+
 func findVar(f *ast.File, name string) ast.Expr {
 	for _, d := range f.Decls {
 		gd, ok := d.(*ast.GenDecl)
@@ -216,7 +239,7 @@ func main() {
 		fatal("%v", err)
 	}
 	// delete stale generated files first
-	for _, n := range []string{"Tables.lean", "Facts.lean"} {
+	for _, n := range []string{"Tables.lean", "Facts.lean", "Switch.lean"} {
 		os.Remove(filepath.Join(out, n))
 	}
 
@@ -378,6 +401,107 @@ func main() {
 	}
 	fb.WriteString("\nend RSV.Gen\n")
 	if err := os.WriteFile(filepath.Join(out, "Facts.lean"), []byte(fb.String()), 0o644); err != nil {
+		fatal("%v", err)
+	}
+
+	// ---------- Switch.lean ----------
+	var sb strings.Builder
+	sb.WriteString("/-! GENERATED by /verif/tools/extract from /repo/galois_gen_switch_amd64.go — do not edit. -/\nnamespace RSV.Gen\n\n")
+	// the six switch functions of the generated kernels: for every case (inputs, outputs) the mask K of
+	// `return n & (maxInt - K)` (or of the leading `n := (stop-start) & (maxInt - (G-1))`) and whether the
+	// callee's name carries the expected shape "<in>x<out>"
+	sb.WriteString("/-- (function code, inputs, outputs, granularity, callee name ok) for every case of the six kernel switch functions;\nfunction codes: 0 galMulSlicesAvx2, 1 …Avx2Xor, 2 …GFNI, 3 …GFNIXor, 4 …AvxGFNI, 5 …AvxGFNIXor -/\n")
+	sb.WriteString("def kernelSwitch : List (Nat × Nat × Nat × Nat × Bool) := [\n")
+	first := true
+	for fnCode, fn := range []string{"galMulSlicesAvx2", "galMulSlicesAvx2Xor", "galMulSlicesGFNI", "galMulSlicesGFNIXor", "galMulSlicesAvxGFNI", "galMulSlicesAvxGFNIXor"} {
+		var fd *ast.FuncDecl
+		for _, d := range files["galois_gen_switch_amd64.go"].Decls {
+			if f, ok := d.(*ast.FuncDecl); ok && f.Name.Name == fn {
+				fd = f
+			}
+		}
+		if fd == nil {
+			fatal("switch function %s not found", fn)
+		}
+		env := fileConsts(files["reedsolomon.go"])
+		// leading granularity: n := (stop - start) & (maxInt - (G - 1))
+		lead := uint64(0)
+		ast.Inspect(fd.Body, func(n ast.Node) bool {
+			as, ok := n.(*ast.AssignStmt)
+			if !ok || len(as.Rhs) != 1 || lead != 0 {
+				return true
+			}
+			if be, ok := as.Rhs[0].(*ast.BinaryExpr); ok && be.Op == token.AND {
+				if m := maskOf(be.Y, env); m != 0 {
+					lead = m
+				}
+			}
+			return true
+		})
+		cases := 0
+		for _, st := range fd.Body.List {
+			sw, ok := st.(*ast.SwitchStmt)
+			if !ok {
+				continue
+			}
+			for _, cc := range sw.Body.List {
+				c1 := cc.(*ast.CaseClause)
+				if len(c1.List) != 1 {
+					continue
+				}
+				inV, _ := evalConst(c1.List[0], env)
+				nin, _ := constant.Uint64Val(inV)
+				for _, st2 := range c1.Body {
+					sw2, ok := st2.(*ast.SwitchStmt)
+					if !ok {
+						continue
+					}
+					for _, cc2 := range sw2.Body.List {
+						c2 := cc2.(*ast.CaseClause)
+						if len(c2.List) != 1 {
+							continue
+						}
+						outV, _ := evalConst(c2.List[0], env)
+						nout, _ := constant.Uint64Val(outV)
+						g := lead
+						callee := ""
+						for _, st3 := range c2.Body {
+							switch x := st3.(type) {
+							case *ast.ExprStmt:
+								if call, ok := x.X.(*ast.CallExpr); ok {
+									if id, ok := call.Fun.(*ast.Ident); ok {
+										callee = id.Name
+									}
+								}
+							case *ast.ReturnStmt:
+								if len(x.Results) == 1 {
+									if be, ok := x.Results[0].(*ast.BinaryExpr); ok && be.Op == token.AND {
+										if m := maskOf(be.Y, env); m != 0 {
+											g = m
+										}
+									}
+								}
+							}
+						}
+						nameOK := strings.Contains(callee, fmt.Sprintf("_%dx%d", nin, nout)) &&
+							strings.HasSuffix(callee, "Xor") == strings.HasSuffix(fn, "Xor")
+						if !first {
+							sb.WriteString(",\n")
+						}
+						first = false
+						fmt.Fprintf(&sb, "  (%d, %d, %d, %d, %v)", fnCode, nin, nout, g, nameOK)
+						cases++
+					}
+				}
+			}
+		}
+		if cases != 100 {
+			fatal("switch function %s: %d cases, expected 100", fn, cases)
+		}
+	}
+	sb.WriteString("]\n")
+	sb.WriteString("\nend RSV.Gen\n")
+	if err := os.WriteFile(filepath.Join(out, "Switch.lean"), []byte(sb.String()), 0o644); err != nil {
 		fatal("%v", err)
 	}
 }
